@@ -101,7 +101,8 @@ pub fn dop_class(op: &DOp) -> &'static str {
         DOp::Set(..) => "set-value",
         DOp::From(_) => "update-from",
         DOp::Where(CondS::One(_)) => "and_where",
-        DOp::Where(CondS::Any(_)) => "cond_where",
+        DOp::Where(CondS::Any(v)) | DOp::Where(CondS::All(v)) if v.is_empty() => "cond_where-empty-group",
+        DOp::Where(CondS::Any(_)) | DOp::Where(CondS::All(_)) => "cond_where",
         DOp::Order(_, OrderK::Plain(_)) => "order_by",
         DOp::Order(_, OrderK::Nulls(..)) => "order_by_nulls",
         DOp::Order(_, OrderK::Field(_)) => "order_by_field",
@@ -211,19 +212,6 @@ fn ret_build(r: &RetSpec, d: Dialect) -> ReturningClause {
         RetSpec::Exprs(x) => Query::returning().exprs(x.iter().map(|x| x.build(d))),
     }
 }
-fn cond_build(c: &CondS, d: Dialect) -> Condition {
-    match c {
-        CondS::One(x) => x.build(d).into_condition(),
-        CondS::Any(v) => {
-            let mut c = Cond::any();
-            for x in v {
-                c = c.add(x.build(d));
-            }
-            c
-        }
-    }
-}
-
 /// the real builder call; Err = the call returned an error (never expected in this alphabet)
 pub fn apply_real(s: &mut DStmt, op: &DOp, d: Dialect) -> Result<(), String> {
     match (s, op) {
@@ -327,10 +315,7 @@ fn conds_sql(cs: &[CondS]) -> String {
     format!(
         " WHERE {}",
         cs.iter()
-            .map(|c| match c {
-                CondS::One(x) => format!("({})", x.ref_sql()),
-                CondS::Any(v) => format!("({})", v.iter().map(|x| x.ref_sql()).collect::<Vec<_>>().join(" OR ")),
-            })
+            .map(|c| format!("({})", c.ref_sql()))
             .collect::<Vec<_>>()
             .join(" AND ")
     )
@@ -427,10 +412,7 @@ impl DSpec {
     pub fn tags(&self, kind: Kind, d: Dialect, out: &mut Vec<V>) {
         let conds = |out: &mut Vec<V>| {
             for c in &self.wheres {
-                match c {
-                    CondS::One(x) => x.tags(d, out),
-                    CondS::Any(v) => v.iter().for_each(|x| x.tags(d, out)),
-                }
+                c.tags(d, out);
             }
         };
         let orders = |out: &mut Vec<V>| {
@@ -518,6 +500,8 @@ pub fn dml_menu(kind: Kind, thorough: bool) -> Vec<DOp> {
             m.push(DOp::Where(CondS::One(x.clone())));
         }
         m.push(DOp::Where(CondS::Any(vec![retag(&pb[0], 50), retag(&pb[4], 50)])));
+        m.push(DOp::Where(CondS::Any(vec![])));
+        m.push(DOp::Where(CondS::All(vec![])));
         m.push(DOp::Where(CondS::One(XS::InSub(bx(XS::Col("b")), bx(r[0].clone())))));
     };
     let returning = |m: &mut Vec<DOp>| {
